@@ -310,9 +310,16 @@ def migrateAll (l : LState) (ms : List Mig) : LState × Bool :=
 def sweepWorker (timeout now : Nat) (w : LWorker) : LWorker :=
   if w.status = .ready ∧ now - w.lastHb > timeout then { w with status := .unhealthy } else w
 
+def dedup : List String → List String
+  | [] => []
+  | x :: xs => x :: (dedup xs).filter (· != x)
+
 /-- ids a sweep marks unhealthy -/
 def sweepMarked (l : LState) (now : Nat) : List String :=
-  (l.workers.filter fun e => decide (e.2.status = .ready ∧ now - e.2.lastHb > l.timeout)).map (·.1)
+  (dedup l.workers.keys).filter fun id =>
+    match l.workers.get id with
+    | some w => decide (w.status = .ready ∧ now - w.lastHb > l.timeout)
+    | none => false
 
 /-! ## operations: local update and proposed commands -/
 
@@ -352,10 +359,6 @@ inductive Op where
   /-- start-up: `coord.scaling_policy = scaling_policy` (main.rs) -/
   | startupPolicy (p : Option String)
   deriving Repr
-
-def dedup : List String → List String
-  | [] => []
-  | x :: xs => x :: (dedup xs).filter (· != x)
 
 /-- the local update of an operation; `r` is the replicated state as the coordinator reads it (`store_state`) -/
 def stepL (l : LState) (r : RState) : Op → LState
